@@ -814,10 +814,14 @@ def run(tier="quick", seed=0):
                     "non-trivial = at least one data group" % (6 if thorough else 4),
                     budget_s=55 if not thorough else 560)
     col.bounds = {"contigs": "1..4 exhaustive (genome API and similarity: 1..%d), 5 sampled" % (4 if thorough else 3),
-                  "genome_configs": list(GCFGS), "group_sequences": "all permutations of all subsets of genome names + 1 unknown + ignored name"
-                  " (quick: length <= 3 for 4-contig genomes with ignored names)",
-                  "entries_per_group": "1..2 (sampled: 1..3)", "chunkings": "all compositions for N <= %d entries, else {1 chunk, "
-                  "singletons, every 2-split, 1|N-2|1}" % (6 if thorough else 4),
+                  "genome_configs": list(GCFGS), "group_sequences": "all permutations of all subsets of genome names + 1 unknown + ignored name; "
+                  "complete for 1..3 contigs and for the plain 4-contig genome; 4-contig genomes with an ignored name: sequences of "
+                  "length <= %s; the '_'-kept genome (known-defective region): %s" %
+                  (("4", "complete to 3 contigs, length <= 3 at 4") if thorough else
+                   ("3 (filter-ignored: 2)", "complete to 2 contigs, length <= 2 at 3, <= 1 at 4")),
+                  "entries_per_group": "1..2 (sampled: 1..3)",
+                  "chunkings": "accepted sequences: all compositions for N <= %d entries, else {1 chunk, singletons, every 2-split, "
+                  "1|N-2|1}; rejected sequences: {1 chunk, singletons%s}" % (6 if thorough else 4, ", every 2-split" if thorough else ""),
                   "consumers": ["exhaust", "zip(sizes, stream)"], "observers": sorted(OBSERVERS),
                   "inputs": ["NpDataclassStream", "table", "bed/bedgraph file (stream=True)", "table.as_stream()"],
                   "groupby_keys": ["StringArray", "EncodedArray(StringEncoding)"], "samples": 300 if not thorough else 4000}
